@@ -58,12 +58,20 @@ RUNNER = {
     "_pos_flow_map": ("b.posMap", "PAIRS"),
     "_neg_flow_map": ("b.negMap", "PAIRS"),
 }
+STRAT_ATTRS = {
+    "_new_size": ("ix.newSize", "N"),
+    "_passthrough_target_indices": ("ix.passTarget", "IV"),
+    "_passthrough_base_indices": ("ix.passBase", "IV"),
+    "_strat_base_indices": ("ix.stratBase", "IV"),
+    "_stratum_target_indices": ("ix.stratumTarget", "SDIV"),     # dict stratum -> index array
+    "strata": ("strata", "STRS"),
+}
 MODEL_ATTRS = {
     "_disease_strains": ("(List.range b.strainInfIdx.length)", "STRAINS"),
     "compartments": ("b.nComps", "LEN"),     # only ever used under len(...)
     "flows": ("b.nFlows", "LEN"),
 }
-LEAN_T = {"S": "α", "V": "List α", "IV": "List Nat", "IM": "List (List Nat)", "BV": "List Bool", "M": "Matrix α",
+LEAN_T = {"STR": "String", "STRS": "List String", "SDIV": "List (String × List Nat)", "SDS": "List (String × α)", "S": "α", "V": "List α", "IV": "List Nat", "IM": "List (List Nat)", "BV": "List Bool", "M": "Matrix α",
           "VM": "List (List α)", "N": "Nat", "B": "Bool", "G": "γ", "VD": "List (List α)", "IVD": "List (List Nat)",
           "IMD": "List (List (List Nat))", "TVMAP": "List (κ × List Nat)", "K": "κ"}
 
@@ -130,6 +138,8 @@ def expr(n, cx):
             return RUNNER[n.attr]
         if ast.unparse(n.value) == "runner.model" and n.attr in MODEL_ATTRS:
             return MODEL_ATTRS[n.attr]
+        if isinstance(n.value, ast.Name) and n.value.id == "strat" and n.attr in STRAT_ATTRS and cx.env.get("strat", (None, None))[1] == "STRATIX":
+            return STRAT_ATTRS[n.attr]
         raise Untranslatable("attribute " + ast.unparse(n))
     if isinstance(n, ast.Tuple):
         els = [expr(e, cx) for e in n.elts]
@@ -220,6 +230,10 @@ def subscript(n, cx):
         return (f"(jget {base[0]} ({const_num(sl)} : Int))", "S")
     idx = expr(sl, cx)
     it = idx[1]
+    if bt == "SDIV" and it == "STR":
+        return (f"((alookup {base[0]} {idx[0]}).getD [])", "IV")
+    if bt == "SDS" and it == "STR":
+        return (f"((alookup {base[0]} {idx[0]}).getD 0)", "S")
     if bt in ("VD", "IVD", "IMD") and it == "STRAIN":
         return (f"({base[0]}.getD {idx[0]} [])", {"VD": "V", "IVD": "IV", "IMD": "IM"}[bt])
     if bt == "V" and it == "IV":
@@ -329,6 +343,11 @@ def call(n, cx):
             if a[1] == "N":
                 return (f"(List.replicate {a[0]} (0 : α))", "V")
         raise Untranslatable("jnp.zeros " + ast.unparse(n))
+    if fs == "jnp.empty" and len(n.args) == 1 and not n.keywords:
+        a = expr(n.args[0], cx)
+        if a[1] == "N":
+            # uninitialised memory: every position is written before it is read (`C06.targets_partition`); modelled as zeros
+            return (f"(List.replicate {a[0]} (0 : α))", "V")
     if fs == "jnp.cumsum" and len(n.args) == 1 and not n.keywords:
         a = expr(n.args[0], cx)
         if a[1] == "V":
@@ -583,9 +602,12 @@ def for_stmt(st, rest, cx, k, ind):
         seq_lean = seq[0]
     else:
         seq = expr(it, cx)
-        if seq[1] != "PAIRS" or not isinstance(st.target, ast.Name):
+        if seq[1] == "STRS" and isinstance(st.target, ast.Name):
+            bcx.env[st.target.id] = (elem, "STR")
+        elif seq[1] == "PAIRS" and isinstance(st.target, ast.Name):
+            bcx.env[st.target.id] = (elem, ("T", ("N", "N")))
+        else:
             raise Untranslatable("for over " + ast.unparse(it))
-        bcx.env[st.target.id] = (elem, ("T", ("N", "N")))
         seq_lean = seq[0]
     carried = [v for v in assigned_names(st.body) if v in cx.env]
     bcx.live = set(cx.live) | set(carried) | {x.id for r in rest for x in ast.walk(r) if isinstance(x, ast.Name)}
@@ -1085,6 +1107,106 @@ def gen_derived(tree, out, report):
     attempt("request_dispatch", t_dispatch)
 
 
+
+# ------------------------------------------------------------------------------------------------ initial population
+ISRC = "summer2/runner/jax/stratify.py"
+
+
+def gen_initpop(tree, out, report):
+    funcs = {}
+
+    def attempt(key, thunk):
+        try:
+            out.append(thunk())
+            report[key] = "ok"
+        except Untranslatable as e:
+            report[key] = "untranslatable: " + str(e)
+        except Exception as e:
+            report[key] = "untranslatable: internal " + type(e).__name__ + ": " + str(e)
+
+    def t_values():
+        b = top_func(tree, "get_stratify_compartments_func")
+        ret = b.body[-1]
+        if not (isinstance(ret, ast.Return) and isinstance(ret.value, ast.Name)):
+            raise Untranslatable("get_stratify_compartments_func does not return a closure")
+        fn = inner_func(b, ret.value.id)
+        names = arg_names(fn)
+        if names != ["comp_values", "static_graph_values"]:
+            raise Untranslatable("signature of " + fn.name)
+        stmts = [st for st in fn.body if not (isinstance(st, ast.Expr) and isinstance(st.value, ast.Constant))]
+        if not stmts or ast.unparse(stmts[0]) != "population_split = get_static_param_value(strat.population_split, static_graph_values)":
+            raise Untranslatable(fn.name + ": the split must be evaluated with get_static_param_value(strat.population_split, static_graph_values)")
+        cx = Cx({"comp_values": ("comp_values", "V"), "strat": ("ix", "STRATIX"), "population_split": ("population_split", "SDS")}, funcs)
+        body = block(stmts[1:], cx, lambda c: "", 1)
+        if cx.env.get("@return", (None, None))[1] != "V":
+            raise Untranslatable(fn.name + " does not return a vector")
+        return emit("stratify_compartment_values", "(ix : Run.StratIdx) (strata : List String) (population_split : List (String × α)) (comp_values : List α)", body, "List α",
+                    f"`runner/jax/stratify.py::get_stratify_compartments_func` → the closure it returns (`{fn.name}`); `population_split` is the evaluated split, "
+                    "`ix` the index arrays `_stratify_compartments` stored on the stratification")
+    attempt("stratify_compartment_values", t_values)
+
+    def t_calc():
+        b = top_func(tree, "get_calculate_initial_pop")
+        stmts = [st for st in b.body if not (isinstance(st, ast.Expr) and isinstance(st.value, ast.Constant))]
+        src = [ast.unparse(st) for st in stmts]
+        # 1. array population short cut
+        want0 = ("if model._array_population is not None:\n\n    def calculate_initial_population(static_graph_values: dict) -> jnp.ndarray:\n"
+                 "        return static_graph_values['init_pop_array']\n    return calculate_initial_population")
+        if len(stmts) != 6 or src[0] != want0:
+            raise Untranslatable("get_calculate_initial_pop: array-population short cut / statement count " + str(len(stmts)))
+        # 2. the per-stratification closures, built while the compartment list is walked through the stratifications
+        if src[1] != "strat_funcs = {}" or src[2] != "comps = model._original_compartment_names":
+            raise Untranslatable("get_calculate_initial_pop: strat_funcs / comps")
+        lp = stmts[3]
+        if not (isinstance(lp, ast.For) and ast.unparse(lp.target) == "strat" and ast.unparse(lp.iter) == "model._stratifications"
+                and [ast.unparse(x) for x in lp.body] == ["strat_funcs[strat] = get_stratify_compartments_func(model, strat, comps)",
+                                                          "comps = strat._stratify_compartments(comps)"]):
+            raise Untranslatable("get_calculate_initial_pop: the loop that builds strat_funcs and walks the compartment list")
+        fn = stmts[4]
+        if not (isinstance(fn, ast.FunctionDef) and fn.name == "calculate_initial_population" and src[5] == "return calculate_initial_population"):
+            raise Untranslatable("get_calculate_initial_pop: closure")
+        fb = [st for st in fn.body if not (isinstance(st, ast.Expr) and isinstance(st.value, ast.Constant))]
+        fs = [ast.unparse(st) for st in fb]
+        if len(fb) != 3 or fs[0] != "distribution = model._init_pop_dist" or fs[1] != "initial_population = jnp.zeros(len(model._original_compartment_names))":
+            raise Untranslatable("calculate_initial_population: prologue")
+        iff = fb[2]
+        if not (isinstance(iff, ast.If) and ast.unparse(iff.test) == "isinstance(distribution, dict)" and len(iff.orelse) == 1 and isinstance(iff.orelse[0], ast.Raise)):
+            raise Untranslatable("calculate_initial_population: dict test")
+        body = iff.body
+        bs = [ast.unparse(st) for st in body]
+        want_fill = ("for idx, comp in enumerate(model._original_compartment_names):\n    pop = get_static_param_value(distribution[comp.name], static_graph_values)\n"
+                     "    initial_population = initial_population.at[idx].set(pop)")
+        want_actions = ("for action in model.tracker.all_actions:\n    if action.action_type == 'stratify':\n        strat = action.kwargs['strat']\n"
+                        "        initial_population = strat_funcs[strat](initial_population, static_graph_values)\n    elif action.action_type == 'adjust_pop_split':\n"
+                        "        initial_population = get_rebalanced_population(model, initial_population, static_graph_values, **action.kwargs)")
+        if len(body) != 3 or bs[0] != want_fill or bs[1] != want_actions or bs[2] != "return initial_population":
+            raise Untranslatable("calculate_initial_population: the fill loop / the action loop changed")
+        text = ("  let initial_population := List.replicate names.length (0 : α)\n"
+                "  let initial_population := names.zipIdx.foldl (fun acc ci => acc.set ci.2 ((alookup distribution ci.1).getD 0)) initial_population\n"
+                "  actions.foldl (fun acc action =>\n"
+                "    match action with\n"
+                "    | .inl strat => strat_func strat acc\n"
+                "    | .inr rb => rebalanced rb acc) initial_population")
+        return emit("calculate_initial_population",
+                    "{σ ρ : Type} (names : List String) (distribution : List (String × α)) (actions : List (σ ⊕ ρ)) (strat_func : σ → List α → List α) (rebalanced : ρ → List α → List α)",
+                    text, "List α",
+                    "`runner/jax/stratify.py::get_calculate_initial_pop` → `calculate_initial_population` for a dict distribution: the evaluated distribution is written "
+                    "position by position, then the tracked actions are replayed in order (`.inl`: `stratify`, through the closure built for that stratification; "
+                    "`.inr`: `adjust_pop_split`, through `get_rebalanced_population`)")
+    attempt("calculate_initial_population", t_calc)
+
+
+IHEADER = """-- GENERATED by harness/translate/gen_rates.py from /repo (summer2/runner/jax/stratify.py). Do not edit.
+import Summer.Model.JaxPrelude
+import Summer.Model.Run
+set_option linter.unusedVariables false
+namespace Summer.Generated.InitPop
+open Summer Summer.Run
+
+section
+variable {α : Type} [Zero α] [One α] [Add α] [Sub α] [Mul α] [Div α] [LT α] [DecidableLT α]
+"""
+
 DHEADER = """-- GENERATED by harness/translate/gen_rates.py from /repo (summer2/runner/jax/derived_outputs.py). Do not edit.
 import Summer.Model.JaxPrelude
 import Summer.Model.Lit
@@ -1140,6 +1262,21 @@ def main():
     if old != dtext:
         with open(dpath, "w") as f:
             f.write(dtext)
+    # initial population
+    iout = [IHEADER]
+    try:
+        with open(os.path.join(REPO, ISRC)) as f:
+            itree = ast.parse(f.read())
+        gen_initpop(itree, iout, report)
+    except Exception as e:
+        report["stratify.py"] = "untranslatable: " + type(e).__name__ + ": " + str(e)
+    iout.append("end\nend Summer.Generated.InitPop\n")
+    itext = "\n".join(iout)
+    ipath = os.path.join(OUT, "InitPop.lean")
+    old = open(ipath).read() if os.path.exists(ipath) else None
+    if old != itext:
+        with open(ipath, "w") as f:
+            f.write(itext)
     print(json.dumps(report))
 
 
